@@ -6,6 +6,9 @@ markers in any spelling, and under control names that must *not* match; ``--auth
 forced failures so that reproduction commands and response details are printed; reports junit, vcr, har; sanitise on /
 off; a custom configuration (``schemathesis.sanitization.extend`` through a hooks module) with custom-named secrets.
 The real ``st`` entry point runs as a subprocess (the cassette echoes ``sys.argv``).
+Sub-check ``api_history``: histories of ``schemathesis.sanitization.configure`` / ``extend`` calls interleaved with outputs
+(``sanitize_value``, ``sanitize_url``, ``case.as_curl_command()`` incl. credentials written by auth providers /
+``set_from_requests``), judged against a reference model of the configuration in force at that moment.
 Oracle (information flow by search): with sanitisation on, no artefact (stdout, stderr, JUnit XML, VCR YAML, HAR JSON)
 contains a canary planted under a sensitive name in its raw, base64 (basic auth) or percent-encoded form; control canaries
 under non-sensitive names do appear (the search is not vacuous). With sanitisation off the sensitive canaries appear.
@@ -214,7 +217,7 @@ def api_history(draw):
     for _ in range(draw(st.integers(2, 8))):
         kind = draw(st.sampled_from(["query", "query", "query", "extend", "extend", "configure"]))
         if kind == "query":
-            steps.append(["query", draw(st.sampled_from(["value", "url", "curl"])), draw(st.lists(st.sampled_from(API_NAMES), min_size=1, max_size=4, unique_by=str.lower))])
+            steps.append(["query", draw(st.sampled_from(["value", "url", "curl", "curl"])), draw(st.lists(st.sampled_from(API_NAMES), min_size=1, max_size=4, unique_by=str.lower)), draw(st.sampled_from([None, None, "requests-basic", "requests-custom", "provider"]))])
         else:
             arg = {}
             if draw(st.booleans()):
@@ -259,8 +262,10 @@ def check_api_history(ctx: Ctx, inp) -> None:
                 markers |= {m.lower() for m in arg.get("sensitive_markers", [])}
                 changed_after_query = changed_after_query or queried
                 continue
-            _, route, names = step
+            route, names = step[1], step[2]
+            auth_kind = step[3] if len(step) > 3 and route == "curl" else None
             queried = True
+            auth_header = "x-auth-token" if auth_kind == "requests-custom" else "authorization"
             values = {name: f"CNR{n}x{i}" for i, name in enumerate(names)}
             sensitive = {name: name.lower() in keys or any(m in name.lower() for m in markers) for name in names}
             if route == "value":
@@ -273,9 +278,43 @@ def check_api_history(ctx: Ctx, inp) -> None:
                     ctx.disagree("api:leak:url-userinfo", f"userinfo survives sanitize_url: {text}", input=inp)
             else:
                 case = operation.Case(headers={k: v for k, v in list(values.items())[::2]}, query={k: v for k, v in list(values.items())[1::2]})
+                secret = f"CNRauth{n}"
+                if auth_kind is not None:  # credentials that reach the request through an auth provider, as the documentation shows
+                    import requests.auth
+                    from schemathesis.auths import AuthContext, AuthStorage
+
+                    storage = AuthStorage()
+                    if auth_kind == "requests-basic":
+                        storage.set_from_requests(requests.auth.HTTPBasicAuth("usr", secret))
+                    elif auth_kind == "requests-custom":
+
+                        class TokenAuth(requests.auth.AuthBase):
+                            def __call__(self, r):
+                                r.headers["X-Auth-Token"] = secret
+                                return r
+
+                        storage.set_from_requests(TokenAuth())
+                    else:
+
+                        @storage()
+                        class Provider:
+                            def get(self, case, context):
+                                return secret
+
+                            def set(self, case, data, context):
+                                case.headers = {**(case.headers or {}), "Authorization": f"Bearer {data}"}
+
+                    storage.set(case, AuthContext(operation=operation, app=None))
                 text = case.as_curl_command()
+                ctx.classes[f"curl-auth={auth_kind}"] += 1
+                if auth_kind is not None and (auth_header in keys or any(m in auth_header for m in markers)):
+                    for form in forms(secret, "usr"):
+                        if form in text:
+                            ctx.disagree(f"api:leak:curl:auth-provider:{auth_kind}", f"step {n}: credentials set by the auth provider are printed: {text[:300]}", input=inp)
             ctx.case(nontrivial=[inp, n] if changed_after_query else None, classes=[f"route={route}", f"config-changed-after-output={changed_after_query}", f"sensitive={sum(sensitive.values())}/{len(names)}"], sample={"steps": inp["steps"][: n + 1], "output": text[:300]})
             for name, value in values.items():
+                if auth_kind is not None and name.lower() == auth_header:
+                    continue  # the provider's own header replaces the one the case carried
                 if sensitive[name] and value in text:
                     ctx.disagree(f"api:leak:{route}:after-config-change={changed_after_query}", f"step {n}: {name} is sensitive under keys+{sorted(keys - set(sz.DEFAULT_KEYS_TO_SANITIZE))} markers+{sorted(markers - set(sz.DEFAULT_SENSITIVE_MARKERS))} but its value is printed: {text[:300]}", input=inp)
                 if not sensitive[name] and value not in text:
@@ -290,11 +329,11 @@ SUBS = [
     Sub("api_history", fn=check_api_history, strategy=api_history, quick=(4, 400), thorough=(16, 6000), timeout_quick=300, timeout_thorough=3000),
     Sub("secrets", collect=True, fn=check_secrets, strategy=secret_case, quick=(16, 3), thorough=(16, 120), shrink_quick=False, timeout_quick=600, timeout_thorough=3400),
 ]
-FLOOR = {"secrets": 30}
+FLOOR = {"secrets": 30, "api_history": 1000}
 
 MANIFEST = {
     "category": "exploration",
-    "technique": "information-flow search: unique canary secrets planted on every configuration route of a real `st run` subprocess, all artefacts searched for raw / base64 / percent-encoded forms; control canaries prove the search is not vacuous",
-    "text": "Generated configurations plant canaries in -H headers under sensitive spellings and under control names, --auth, URL userinfo, --set-query/-cookie/-header, server-side Set-Cookie and token headers, and under a custom key added through schemathesis.sanitization.extend in a hooks module; the API fails so that reproduction commands and responses are printed; stdout, stderr, JUnit, VCR and HAR are searched. With sanitisation on no sensitive canary may appear in any form while control canaries must; with sanitisation off the sensitive ones appear.",
+    "technique": "Hypothesis-generated configuration histories against a reference model of the sanitisation configuration + information-flow search: unique canary secrets planted on every configuration route of a real `st run` subprocess, all artefacts searched for raw / base64 / percent-encoded forms; control canaries prove the search is not vacuous",
+    "text": "Histories of sanitization.configure()/extend() calls interleaved with outputs (sanitize_value, sanitize_url, case.as_curl_command with credentials from auth providers and requests auth objects) are judged against a reference model of the key / marker / replacement configuration in force: sensitive names are redacted with the configured marker, all others are printed. Generated configurations plant canaries in -H headers under sensitive spellings and under control names, --auth, URL userinfo, --set-query/-cookie/-header, server-side Set-Cookie and token headers, and under a custom key added through schemathesis.sanitization.extend in a hooks module; the API fails (and for some requests drops the connection or answers after the read timeout) so that reproduction commands and responses are printed; stdout, stderr, JUnit, VCR and HAR are searched. With sanitisation on no sensitive canary may appear in any form while control canaries must; with sanitisation off the sensitive ones appear.",
     "note": "The schema is loaded from a local file. Only the routes listed are planted; generated security parameters are not canaries.",
 }
